@@ -139,6 +139,7 @@ type Machine struct {
 	models    []*modelT
 	cacheHits int
 
+	hangLimit   int
 	mainProc    int
 	ifPos       token.Pos
 	callPos     token.Pos
@@ -610,6 +611,10 @@ func (m *Machine) callWith(fn *ssa.Function, args []Val, bind []Val) Val {
 			m.steps++
 			if m.steps > m.eng.maxSteps {
 				panic(pathAbort{"cut: step budget"})
+			}
+			if m.hangLimit > 0 && m.steps > m.hangLimit {
+				m.hangLimit = 0
+				m.tpanic("hang", "instruction budget set by the harness exceeded (non-termination)", in.Pos())
 			}
 			switch i := in.(type) {
 			case *ssa.Phi:
